@@ -353,7 +353,7 @@ func (e *FnEnc) encodeBlock(b *ssa.BasicBlock) {
 		if spec != nil && e.pass == 2 {
 			env := e.pointEnv(b, entryVals, nil)
 			for _, c := range spec.Invs {
-				t := e.evalBool(c.E, env, c)
+				t := e.evalLoopInv(c, env, li.ordinal)
 				e.flushFacts()
 				e.oblige(fmt.Sprintf("loop%d.inv.init", li.ordinal), c.Label, t, token.NoPos)
 			}
@@ -387,7 +387,7 @@ func (e *FnEnc) encodeBlock(b *ssa.BasicBlock) {
 		if spec != nil && e.pass == 2 {
 			env := e.pointEnv(b, nil, preState)
 			for _, c := range spec.Invs {
-				t := e.evalBool(c.E, env, c)
+				t := e.evalLoopInv(c, env, li.ordinal)
 				e.flushFacts()
 				e.assume(t)
 			}
@@ -439,12 +439,38 @@ func (e *FnEnc) encodeBlock(b *ssa.BasicBlock) {
 		e.curGuard = e.edgeCond(b, s)
 		env := e.pointEnv(s, over, e.loopPre[sli])
 		for _, c := range spec.Invs {
-			t := e.evalBool(c.E, env, c)
+			t := e.evalLoopInv(c, env, sli.ordinal)
 			e.flushFacts()
 			e.oblige(fmt.Sprintf("loop%d.inv.preserve", sli.ordinal), c.Label, t, token.NoPos)
 		}
 		e.curGuard = saveG
 	}
+}
+
+// evalLoopInv: a loop invariant that names a local variable the function no longer has cannot be placed
+// on the changed code (the inductive argument proved on the unchanged tree does not transfer): it is
+// reported as a failed structural obligation and treated as `true`, instead of aborting the whole check.
+func (e *FnEnc) evalLoopInv(c *Clause, env *specEnv, ordinal int) (res string) {
+	defer func() {
+		if r := recover(); r != nil {
+			if u, ok := r.(unsupported); ok && strings.Contains(u.msg, "unknown identifier") {
+				msg := fmt.Sprintf("loop %d invariant [%s] cannot be placed on the current code: %s", ordinal, c.Label, u.msg)
+				seen := false
+				for _, s := range e.structural {
+					if s == msg {
+						seen = true
+					}
+				}
+				if !seen {
+					e.structural = append(e.structural, msg)
+				}
+				res = "true"
+				return
+			}
+			panic(r)
+		}
+	}()
+	return e.evalBool(c.E, env, c)
 }
 
 // coerce untyped nil / constants to type t
